@@ -156,6 +156,18 @@ fn build(base_fields: u8, axes: &[Axis], non_array: u8, grid_pos: u8, rotate: u8
     }
 }
 
+/// grid search, then a second grid section injected into every generated query, then grid
+/// search again: an expanding plugin that runs when the list already holds several queries
+fn run_two_stage(query: &Value) -> Result<Vec<Value>, String> {
+    use routee_compass::plugin::input::default::inject::inject_plugin::InjectInputPlugin;
+    let plugins: Vec<Arc<dyn InputPlugin>> = vec![
+        Arc::new(GridSearchPlugin {}),
+        Arc::new(InjectInputPlugin::new("grid_search".to_string(), json!({"second_stage_axis": ["s0", "s1"]}), None)),
+        Arc::new(GridSearchPlugin {}),
+    ];
+    apply_input_plugins(query, &plugins).map_err(|e| e.to_string())
+}
+
 fn run_plugin(query: &Value, through_pipeline: bool) -> Result<Vec<Value>, String> {
     if through_pipeline {
         let plugins: Vec<Arc<dyn InputPlugin>> = vec![Arc::new(GridSearchPlugin {})];
@@ -196,7 +208,7 @@ impl Prop for C17 {
         "C17"
     }
     fn rule(&self) -> String {
-        "enumerated: the mixed-radix iterator on all 340 shapes with 1-4 axes of 1-4 options (consumed through take(expected+1)); generated: iterator shapes up to 6 axes x 6 options; query objects with 0-5 extra fields of all JSON types, a grid section with 1-4 array fields of 1-4 distinct choices (numbers, strings, null, objects with 1-2 keys, mixtures), 0-2 non-array members, any key order and grid-key position, axis names that override a base field, one case in 300 with two axes of 18-45 choices (products of several hundred to several thousand), run through the plugin directly and through apply_input_plugins; queries without a grid section. non-trivial = at least 2 axes with different lengths, one of length 1 and one object-valued choice".to_string()
+        "enumerated: the mixed-radix iterator on all 340 shapes with 1-4 axes of 1-4 options (consumed through take(expected+1)); generated: iterator shapes up to 6 axes x 6 options; query objects with 0-5 extra fields of all JSON types, a grid section with 1-4 array fields of 1-4 distinct choices (numbers, strings, null, objects with 1-2 keys, mixtures), 0-2 non-array members, any key order and grid-key position, axis names that override a base field, one case in 300 with two axes of 18-45 choices (products of several hundred to several thousand), run through the plugin directly and through apply_input_plugins (a third of those through grid search -> inject a second grid section -> grid search); queries without a grid section. non-trivial = at least 2 axes with different lengths, one of length 1 and one object-valued choice".to_string()
     }
     fn cases(&self, tier: Tier) -> u32 {
         tier.pick(40_000, 1_500_000)
@@ -341,7 +353,27 @@ impl Prop for C17 {
                 o.label_if(b.any_object, "object-valued-choice");
                 o.label_if(*through_pipeline, "through-apply_input_plugins");
                 o.label_if(*non_array_fields > 0, "non-array-grid-members");
-                let out = match run_plugin(&b.query, *through_pipeline) {
+                // every third pipeline case expands twice
+                let two_stage = *through_pipeline && *rotate % 3 == 0 && b.expected.len() <= 2000;
+                o.label_if(two_stage, "two-stage-expansion");
+                let mut b = b;
+                if two_stage {
+                    b.expected = b
+                        .expected
+                        .iter()
+                        .flat_map(|e| {
+                            ["s0", "s1"].iter().map(move |v| {
+                                let mut e2 = e.clone();
+                                if let Some(m) = e2.as_object_mut() {
+                                    m.insert("second_stage_axis".into(), json!(v));
+                                }
+                                e2
+                            })
+                        })
+                        .collect();
+                }
+                let ran = if two_stage { run_two_stage(&b.query) } else { run_plugin(&b.query, *through_pipeline) };
+                let out = match ran {
                     Err(e) => {
                         o.fail("C17/grid/error", json!({"query": b.query, "error": e}));
                         return o;
